@@ -10,6 +10,10 @@ def bits_of(t):
     return 8 * (t or {}).get('size', 0)
 
 
+_CONST_INITS = {}     # per function (set by rule_nowrap): local id -> initialiser of a const-qualified integer local
+_BUSY = set()
+
+
 def umax(e):
     """upper bound of an unsigned integer expression, computed in exact (unbounded) arithmetic"""
     if not isinstance(e, dict):
@@ -21,6 +25,16 @@ def umax(e):
     t = e.get('t') or {}
     tmax = (1 << bits_of(t)) - 1 if bits_of(t) else None
     if k == 'load':
+        inner = e.get('e') or {}
+        if inner.get('k') == 'ref' and inner.get('rk') == 'local' and inner.get('id') in _CONST_INITS and inner['id'] not in _BUSY:
+            # a const-qualified local holds the value it was initialised with: its bound is the initialiser's
+            _BUSY.add(inner['id'])
+            try:
+                b = umax(_CONST_INITS[inner['id']])
+            finally:
+                _BUSY.discard(inner['id'])
+            if b is not None:
+                return b if tmax is None else min(b, tmax)
         return tmax
     if k == 'cast':
         inner = umax(e['e'])
@@ -123,6 +137,13 @@ def rule_nowrap(ctx, cfg, prog, rule='R-NOWRAP'):
     for f in prog.functions.values():
         if 'body' not in f or not f['l'][0].startswith('include/core/') or '/arch/' in f['l'][0]:
             continue
+        _CONST_INITS.clear()
+        for x in walk(f['body']):
+            if x.get('k') == 'decl':
+                for v in x['vars']:
+                    t_ = v.get('t') or {}
+                    if t_.get('const') and t_.get('k') in ('int', 'enum', 'bool') and v.get('init') is not None and v.get('id') is not None:
+                        _CONST_INITS[v['id']] = v['init']
         compares0 = []
         for x in walk(f['body']):
             if x.get('k') == 'bin' and x.get('op') in ('<', '<=', '>', '>='):
